@@ -1,0 +1,49 @@
+//go:build verif
+
+package health
+
+// Contracts for govc (see /verif/DESIGN.md). Comment-only file: contributes no code.
+
+// ---- C08: health-check circuit breaker, one circuitState per endpoint URL
+
+//@ spec func csInv(s *circuitState) bool = s != nil && (s.isOpen == 0 || s.isOpen == 1) && s.failures >= 0 && (s.isOpen == 1 ==> s.failures >= 3) && s.lastAttempt >= 0
+
+//@ type CircuitBreaker
+//@   repinv self.failureThreshold == 3 && self.timeout == 30000000000
+//@   repinv forall k string :: xhas(self.endpoints, k) ==> csInv(xget(self.endpoints, k))
+
+//@ func NewCircuitBreaker
+//@   property C08
+//@   ensures res != nil && fresh(res) && res.failureThreshold == 3 && res.timeout == 30000000000
+//@   ensures forall k string :: !xhas(res.endpoints, k)
+
+// loadOrCreateState is a three-line helper: its body is executed in the caller's proof (inline), not abstracted.
+//@ func (cb *CircuitBreaker) loadOrCreateState
+//@   inline
+
+//@ func (cb *CircuitBreaker) RecordFailure
+//@   property C08 C07
+//@   modifies cb.endpoints[all], circuitState.failures, circuitState.lastFailure, circuitState.lastAttempt, circuitState.isOpen
+//@   ensures xhas(cb.endpoints, endpointURL)
+//@   ensures old(xhas(cb.endpoints, endpointURL)) ==> xget(cb.endpoints, endpointURL).failures == old(xget(cb.endpoints, endpointURL).failures) + 1
+//@   ensures !old(xhas(cb.endpoints, endpointURL)) ==> xget(cb.endpoints, endpointURL).failures == 1
+//@   ensures xget(cb.endpoints, endpointURL).lastFailure == now && xget(cb.endpoints, endpointURL).lastAttempt == 0
+//@   ensures xget(cb.endpoints, endpointURL).failures >= 3 ==> xget(cb.endpoints, endpointURL).isOpen == 1
+//@   ensures xget(cb.endpoints, endpointURL).failures < 3 ==> xget(cb.endpoints, endpointURL).isOpen == 0
+
+//@ func (cb *CircuitBreaker) RecordSuccess
+//@   property C08 C07
+//@   modifies circuitState.failures, circuitState.lastAttempt, circuitState.isOpen
+//@   ensures xhas(cb.endpoints, endpointURL) ==> xget(cb.endpoints, endpointURL).failures == 0 && xget(cb.endpoints, endpointURL).isOpen == 0 && xget(cb.endpoints, endpointURL).lastAttempt == 0
+//@   ensures forall p *circuitState :: p != xget(cb.endpoints, endpointURL) || !xhas(cb.endpoints, endpointURL) ==> p.failures == old(p.failures) && p.isOpen == old(p.isOpen) && p.lastAttempt == old(p.lastAttempt)
+
+//@ func (cb *CircuitBreaker) IsOpen
+//@   property C08 C07
+//@   replay health_isopen : now ; xhas(cb.endpoints, endpointURL) ; xget(cb.endpoints, endpointURL).failures ; xget(cb.endpoints, endpointURL).lastFailure ; xget(cb.endpoints, endpointURL).lastAttempt ; xget(cb.endpoints, endpointURL).isOpen
+//@   modifies circuitState.lastAttempt
+//@   ensures !xhas(cb.endpoints, endpointURL) ==> res == false
+//@   ensures xhas(cb.endpoints, endpointURL) && xget(cb.endpoints, endpointURL).isOpen == 0 ==> res == false
+//@   ensures xhas(cb.endpoints, endpointURL) && xget(cb.endpoints, endpointURL).isOpen == 1 && now <= xget(cb.endpoints, endpointURL).lastFailure + 30000000000 ==> res == true
+//@   ensures xhas(cb.endpoints, endpointURL) && xget(cb.endpoints, endpointURL).isOpen == 1 && res == false ==> now > xget(cb.endpoints, endpointURL).lastFailure + 30000000000
+//@   ensures xhas(cb.endpoints, endpointURL) && xget(cb.endpoints, endpointURL).isOpen == 1 && res == false ==> xget(cb.endpoints, endpointURL).lastAttempt >= old(now)
+//@   ensures xhas(cb.endpoints, endpointURL) && xget(cb.endpoints, endpointURL).isOpen == 1 && res == false ==> old(xget(cb.endpoints, endpointURL).lastAttempt) == 0 || old(xget(cb.endpoints, endpointURL).lastAttempt) + 1000000000 <= now
